@@ -146,7 +146,7 @@ public:
     if (!(in >> n) || !n)
       throw exception::data_format("Unknown/wrong number of programs");
 
-    team_.reserve(n);
+    // `n` comes from the stream: it isn't trusted for an up-front allocation.
     for (unsigned j(0); j < n; ++j)
       team_.emplace_back(in, ss);
 
@@ -247,7 +247,8 @@ inline bool class_names<true>::load(std::istream &in)
   if (!(in >> n) || !n)
     return false;
 
-  decltype(names_) v(n);
+  // The size read from the stream isn't trusted for an up-front allocation.
+  decltype(names_) v;
 
   // When used immediately after whitespace-delimited input, e.g. after
   //     int n; std::cin >> n;
@@ -257,9 +258,13 @@ inline bool class_names<true>::load(std::istream &in)
   // characters on the line of input with:
   std::ws(in);
 
-  for (auto &line : v)
+  for (unsigned i(0); i < n; ++i)
+  {
+    std::string line;
     if (!getline(in, line))
       return false;
+    v.push_back(line);
+  }
 
   names_ = v;
 
